@@ -36,17 +36,18 @@ theorem follow_head {rest : List Nat} (h : Follow rest) :
   · exact ⟨0x20, r, rfl, by decide, by decide, by decide⟩
   · exact ⟨0x0a, r, rfl, by decide, by decide, by decide⟩
 
-variable {β : Type} {c : Ctx β} {base : Option (List Nat)}
+variable {β : Type} {c : Ctx β} {base : Option (List Nat)} {D : List Nat → Prop}
 
 /-- reading back what `writeIRI` wrote, in the three positions: the dispatch each scan function makes
     on the first rune picks the right producer -/
-theorem written_cases (S : Setup C T c base) (env : Env) (henv : EnvOK env base c.pm) (v : List Nat)
-    (hv : iriTermOK c base v) (w : Written) (hw : writeIRIForm c v = .ok w) (rest : List Nat) (hf : Follow rest) :
+theorem written_cases (S : Setup C T c base) (env : Env) (henv : EnvOK env base c.pm D) (v : List Nat)
+    (hv : iriTermOK c base v) (hD : ∀ l ∈ usedOfIRI c.pm v, D l) (w : Written) (hw : writeIRIForm c v = .ok w)
+    (rest : List Nat) (hf : Follow rest) :
     (∃ p loc out, w = .pname p loc out ∧ labelSafe C.isSpace T p = true ∧
         iriPName C e env (p ++ 0x3a :: (out ++ rest)) = .ok v rest) ∨
     (∃ r, (w = .rel r ∨ w = .full r) ∧
         iriIRIREF C e env (0x3c :: (formatIRI T false r ++ 0x3e :: rest)) = .ok v rest) := by
-  have hd := decode_writeIRI S.hT S.hC c S.cT base S.cb S.baseOK S.labels env henv v hv w hw e rest
+  have hd := decode_writeIRI S.hT S.hC c S.cT base S.cb S.baseOK S.labels env D henv v hv hD w hw e rest
     (follow_local S.hT.tok hf)
   cases w with
   | pname p loc out =>
@@ -64,7 +65,7 @@ theorem written_cases (S : Setup C T c base) (env : Env) (henv : EnvOK env base 
     | some y =>
       obtain ⟨p', loc', out'⟩ := y
       rw [hcl] at hw
-      simp only [Res.ok.injEq, Written.pname.injEq] at hw
+      simp only [TtlEnc.Res.ok.injEq, Written.pname.injEq] at hw
       obtain ⟨rfl, rfl, rfl⟩ := hw
       unfold compactLocal at hcl
       cases hcp : Prefix.compact c.pm v with
@@ -91,15 +92,15 @@ theorem text_pname (p loc out rest : List Nat) :
 
 /-! ### the three positions -/
 
-theorem run_subject_term (S : Setup C T c base) (env : Env) (henv : EnvOK env base c.pm) (s : Term β)
-    (hs : subjectOK c base s) (St : List Nat) (hS : writeSubject c s = .ok St) (x : Ectx) (K : List Frame) (k : Nat)
-    (rest : List Nat) (hf : Follow rest) :
+theorem run_subject_term (S : Setup C T c base) (env : Env) (henv : EnvOK env base c.pm D) (s : Term β)
+    (hs : subjectOK c base s) (hD : ∀ l ∈ usedOfSubject c.pm s, D l) (St : List Nat) (hS : writeSubject c s = .ok St)
+    (x : Ectx) (K : List Frame) (k : Nat) (rest : List Nat) (hf : Follow rest) :
     Run C e (mk (⟨x, .statement⟩ :: K) (List.replicate k 0x0a ++ (St ++ rest)) env) []
       (mk (subjFrames x (dterm c.label s) K) rest env) := by
   cases s with
   | lit lex dt lang => cases hS
   | bnode b =>
-    simp only [writeSubject, Res.ok.injEq] at hS
+    simp only [writeSubject, TtlEnc.Res.ok.injEq] at hS
     subst hS
     have hl := S.lbl.ok b
     have := run_subject_bnode (e := e) S.hT S.hC x K k env (c.label b) rest hl.2 hl.1 (follow_label S.hT.tok hf)
@@ -108,16 +109,16 @@ theorem run_subject_term (S : Setup C T c base) (env : Env) (henv : EnvOK env ba
     simp only [writeSubject] at hS
     obtain ⟨w, hw, rfl⟩ := writeIRI_ok hS
     rw [S.cT]
-    rcases written_cases (e := e) S env henv v hs w hw rest hf with ⟨p, loc, out, rfl, hp, h⟩ | ⟨r, hr, h⟩
+    rcases written_cases (e := e) S env henv v hs hD w hw rest hf with ⟨p, loc, out, rfl, hp, h⟩ | ⟨r, hr, h⟩
     · rw [text_pname]
       exact run_subject_pname S.hT S.hC x K k env p out v rest hp h
     · rcases hr with rfl | rfl
       · rw [text_rel]; exact run_subject_iriref S.hC x K k env _ v rest h
       · rw [text_full]; exact run_subject_iriref S.hC x K k env _ v rest h
 
-theorem run_pred_term (S : Setup C T c base) (env : Env) (henv : EnvOK env base c.pm) (p : List Nat)
-    (hp : iriTermOK c base p) (Pt : List Nat) (hP : writePredicate c p = .ok Pt) (x : Ectx) (K : List Frame)
-    (rest : List Nat) :
+theorem run_pred_term (S : Setup C T c base) (env : Env) (henv : EnvOK env base c.pm D) (p : List Nat)
+    (hp : iriTermOK c base p) (hD : ∀ l ∈ usedOfPredicate c.pm p, D l) (Pt : List Nat)
+    (hP : writePredicate c p = .ok Pt) (x : Ectx) (K : List Frame) (rest : List Nat) :
     ∃ ws, Lead ws ∧ Run C e (mk (⟨x, .polRequired⟩ :: K) (0x20 :: (Pt ++ 0x20 :: rest)) env) []
       (mk (predFrames x (.iri p) K) (ws ++ rest) env) := by
   unfold writePredicate at hP
@@ -126,23 +127,25 @@ theorem run_pred_term (S : Setup C T c base) (env : Env) (henv : EnvOK env base 
     injection hP with hP
     subst hP hty
     exact ⟨[], lead_nil, by simpa [TtlEnc.rdfType, TtlDoc.rdfType, TtlEnc.rdfNS, TtlDoc.rdfNS] using run_pred_a S.hC x K env rest⟩
-  · obtain ⟨w, hw, rfl⟩ := writeIRI_ok hP
+  · next hty =>
+    obtain ⟨w, hw, rfl⟩ := writeIRI_ok hP
     rw [S.cT]
     refine ⟨[0x20], lead_sp, ?_⟩
-    rcases written_cases (e := e) S env henv p hp w hw (0x20 :: rest) (follow_sp rest) with ⟨q, loc, out, rfl, hq, h⟩ | ⟨r, hr, h⟩
+    have hD' : ∀ l ∈ usedOfIRI c.pm p, D l := by simpa [usedOfPredicate, hty] using hD
+    rcases written_cases (e := e) S env henv p hp hD' w hw (0x20 :: rest) (follow_sp rest) with ⟨q, loc, out, rfl, hq, h⟩ | ⟨r, hr, h⟩
     · rw [text_pname]
       exact run_pred_pname S.hT S.hC x K env q out p _ hq h
     · rcases hr with rfl | rfl
       · rw [text_rel]; exact run_pred_iriref S.hC x K env _ p _ h
       · rw [text_full]; exact run_pred_iriref S.hC x K env _ p _ h
 
-theorem run_object_term (S : Setup C T c base) (env : Env) (henv : EnvOK env base c.pm) (o : Term β)
-    (ho : objectOK c base o) (Ot : List Nat) (hO : writeObject c o = .ok Ot) (x : Ectx) (K : List Frame)
-    (ws : List Nat) (hws : Lead ws) (rest : List Nat) (hf : Follow rest) :
+theorem run_object_term (S : Setup C T c base) (env : Env) (henv : EnvOK env base c.pm D) (o : Term β)
+    (ho : objectOK c base o) (hD : ∀ l ∈ usedOfObject c.pm o, D l) (Ot : List Nat) (hO : writeObject c o = .ok Ot)
+    (x : Ectx) (K : List Frame) (ws : List Nat) (hws : Lead ws) (rest : List Nat) (hf : Follow rest) :
     Run C e (mk (⟨x, .object⟩ :: K) (ws ++ (Ot ++ rest)) env) [mkStmt x (dterm c.label o)] (mk K rest env) := by
   cases o with
   | bnode b =>
-    simp only [writeObject, Res.ok.injEq] at hO
+    simp only [writeObject, TtlEnc.Res.ok.injEq] at hO
     subst hO
     have hl := S.lbl.ok b
     have := run_obj_bnode (e := e) S.hT S.hC x K env ws (c.label b) rest hws hl.2 hl.1 (follow_label S.hT.tok hf)
@@ -151,7 +154,7 @@ theorem run_object_term (S : Setup C T c base) (env : Env) (henv : EnvOK env bas
     simp only [writeObject] at hO
     obtain ⟨w, hw, rfl⟩ := writeIRI_ok hO
     rw [S.cT]
-    rcases written_cases (e := e) S env henv v ho w hw rest hf with ⟨p, loc, out, rfl, hp, h⟩ | ⟨r, hr, h⟩
+    rcases written_cases (e := e) S env henv v ho hD w hw rest hf with ⟨p, loc, out, rfl, hp, h⟩ | ⟨r, hr, h⟩
     · rw [text_pname]
       exact run_obj_pname S.hT S.hC x K env ws p out v rest hws hp h
     · rcases hr with rfl | rfl
@@ -172,6 +175,7 @@ theorem run_object_term (S : Setup C T c base) (env : Env) (henv : EnvOK env bas
           simp only at hl
           have hdt := C02.shorthand_datatypes dt lex hsh
           rw [hl.1] at hdt
+          exfalso
           revert hdt; decide
       subst hnone
       by_cases hb : dt = xsdBoolean
@@ -222,7 +226,9 @@ theorem run_object_term (S : Setup C T c base) (env : Env) (henv : EnvOK env bas
                 rw [List.append_assoc, List.cons_append, List.cons_append]
                 exact run_obj_typed S.hT S.hC x K env ws lex dtText dt rest hws hlex ⟨hl.1, hl.2.1⟩ h
               apply hgoal _ rfl
-              rcases written_cases (e := e) S env henv dt hl.2.2 w hw rest hf with ⟨p, loc, out, rfl, hp, h⟩ | ⟨r, hr, h⟩
+              have hD' : ∀ l ∈ usedOfIRI c.pm dt, D l := by
+                simpa [usedOfObject, hnl, *] using hD
+              rcases written_cases (e := e) S env henv dt hl.2.2 hD' w hw rest hf with ⟨p, loc, out, rfl, hp, h⟩ | ⟨r, hr, h⟩
               · rw [text_pname]
                 obtain ⟨c0, r0, h0, _, hc0, _⟩ := pname_head S.hT S.hC hp (out ++ rest)
                 refine ⟨c0, r0, h0, ?_⟩
@@ -236,5 +242,408 @@ theorem run_object_term (S : Setup C T c base) (env : Env) (henv : EnvOK env bas
                 rcases hr with rfl | rfl
                 · rw [text_rel]
                 · rw [text_full]
+
+
+/-! ### one `AddTriple` section -/
+
+theorem tripleSection_parts {t : Triple β} {sec : List Nat} (h : tripleSection c t = .ok sec) :
+    ∃ St Pt Ot, writeSubject c t.s = .ok St ∧ writePredicate c t.p = .ok Pt ∧ writeObject c t.o = .ok Ot ∧
+      sec = St ++ 0x20 :: (Pt ++ 0x20 :: (Ot ++ [0x20, 0x2e, 0x0a])) := by
+  unfold tripleSection Res.bind at h
+  cases h1 : writeSubject c t.s with
+  | err => rw [h1] at h; cases h
+  | panic => rw [h1] at h; cases h
+  | ok St =>
+    rw [h1] at h
+    simp only at h
+    cases h2 : writePredicate c t.p with
+    | err => rw [h2] at h; cases h
+    | panic => rw [h2] at h; cases h
+    | ok Pt =>
+      rw [h2] at h
+      simp only at h
+      cases h3 : writeObject c t.o with
+      | err => rw [h3] at h; cases h
+      | panic => rw [h3] at h; cases h
+      | ok Ot =>
+        rw [h3] at h
+        simp only [TtlEnc.Res.ok.injEq] at h
+        exact ⟨St, Pt, Ot, rfl, rfl, rfl, h.symm⟩
+
+/-- The machine on `S P O .\n`: exactly the input triple comes out, and the machine is back at
+    statement level with the same environment. -/
+theorem run_triple (S : Setup C T c base) (env : Env) (henv : EnvOK env base c.pm D) (t : Triple β)
+    (ht : TripleOK c base t) (hD : ∀ l ∈ usedOfTriple c.pm t, D l) (sec : List Nat)
+    (hsec : tripleSection c t = .ok sec) (K : List Frame) (k : Nat) (rest : List Nat) :
+    Run C e (mk (⟨{}, .statement⟩ :: K) (List.replicate k 0x0a ++ (sec ++ rest)) env) [stmtOf c.label t]
+      (mk (⟨{}, .statement⟩ :: K) (0x0a :: rest) env) := by
+  obtain ⟨St, Pt, Ot, h1, h2, h3, rfl⟩ := tripleSection_parts hsec
+  have hshape : (St ++ 0x20 :: (Pt ++ 0x20 :: (Ot ++ [0x20, 0x2e, 0x0a]))) ++ rest =
+      St ++ (0x20 :: (Pt ++ 0x20 :: (Ot ++ 0x20 :: 0x2e :: 0x0a :: rest))) := by simp
+  rw [hshape]
+  have hD1 : ∀ l ∈ usedOfSubject c.pm t.s, D l := fun l hl => hD l (by simp [usedOfTriple, hl])
+  have hD2 : ∀ l ∈ usedOfPredicate c.pm t.p, D l := fun l hl => hD l (by simp [usedOfTriple, hl])
+  have hD3 : ∀ l ∈ usedOfObject c.pm t.o, D l := fun l hl => hD l (by simp [usedOfTriple, hl])
+  have r1 := run_subject_term (e := e) S env henv t.s ht.s hD1 St h1 {} K k
+    (0x20 :: (Pt ++ 0x20 :: (Ot ++ 0x20 :: 0x2e :: 0x0a :: rest))) (follow_sp _)
+  obtain ⟨ws, hws, r2⟩ := run_pred_term (e := e) S env henv t.p ht.p hD2 Pt h2
+    { subj := some (dterm c.label t.s) }
+    (⟨{ subj := some (dterm c.label t.s) }, .polContinue⟩ :: ⟨{}, .triplesEnd⟩ :: ⟨{}, .statement⟩ :: K)
+    (Ot ++ 0x20 :: 0x2e :: 0x0a :: rest)
+  have r3 := run_object_term (e := e) S env henv t.o ht.o hD3 Ot h3
+    { subj := some (dterm c.label t.s), pred := some (.iri t.p) }
+    (⟨{ subj := some (dterm c.label t.s), pred := some (.iri t.p) }, .objListContinue⟩ ::
+      ⟨{ subj := some (dterm c.label t.s) }, .polContinue⟩ :: ⟨{}, .triplesEnd⟩ :: ⟨{}, .statement⟩ :: K)
+    ws hws (0x20 :: 0x2e :: 0x0a :: rest) (follow_sp _)
+  have r4 := run_statement_end (e := e) S.hC
+    { subj := some (dterm c.label t.s), pred := some (.iri t.p) } { subj := some (dterm c.label t.s) } {}
+    (⟨{}, .statement⟩ :: K) (0x0a :: rest) env
+  have := ((r1.trans r2).trans r3).trans r4
+  simpa [stmtOf, mkStmt, dterm] using this
+
+
+/-- all the sections of a plain document, then the end of the input -/
+theorem run_triples (S : Setup C T c base) (env : Env) (henv : EnvOK env base c.pm D) :
+    ∀ (ts : List (Triple β)) (secs : List (List Nat)), (∀ t ∈ ts, TripleOK c base t) →
+      (∀ t ∈ ts, ∀ l ∈ usedOfTriple c.pm t, D l) →
+      mapRes (tripleSection c) ts = .ok secs → ∀ (K : List Frame) (k : Nat),
+      Run C .eof (mk (⟨{}, .statement⟩ :: K) (List.replicate k 0x0a ++ secs.flatten) env)
+        (ts.map (stmtOf c.label)) (mk [] [] env)
+  | [], secs, _, _, h, K, k => by
+    simp only [mapRes, TtlEnc.Res.ok.injEq] at h
+    subst h
+    simpa using run_eof (C := C) {} K k env
+  | t :: ts, secs, hok, hD, h, K, k => by
+    unfold mapRes Res.bind at h
+    cases h1 : tripleSection c t with
+    | err => rw [h1] at h; cases h
+    | panic => rw [h1] at h; cases h
+    | ok sec =>
+      rw [h1] at h
+      simp only at h
+      cases h2 : mapRes (tripleSection c) ts with
+      | err => rw [h2] at h; cases h
+      | panic => rw [h2] at h; cases h
+      | ok secs' =>
+        rw [h2] at h
+        simp only [TtlEnc.Res.ok.injEq] at h
+        subst h
+        have r1 := run_triple (e := .eof) S env henv t (hok t List.mem_cons_self) (hD t List.mem_cons_self) sec h1 K k
+          secs'.flatten
+        have r2 := run_triples S env henv ts secs' (fun t' ht' => hok t' (List.mem_cons_of_mem _ ht'))
+          (fun t' ht' => hD t' (List.mem_cons_of_mem _ ht')) h2 K 1
+        have := r1.trans r2
+        simpa using this
+
+/-! ### directives -/
+
+theorem scanIRIREF_raw (e : NQ.End) : ∀ (s rest acc : List Nat), (∀ c ∈ s, Spec.TtlPrint.iriRawOK c = true) →
+    scanIRIREF T e .body (s ++ 0x3e :: rest) acc = .ok (goString (acc.reverse ++ s)) rest
+  | [], rest, acc, _ => by simp [scanIRIREF]
+  | c :: s, rest, acc, h => by
+    have hc := h c List.mem_cons_self
+    simp only [Spec.TtlPrint.iriRawOK, Bool.not_eq_true', Bool.or_eq_false_iff, decide_eq_false_iff_not] at hc
+    have h1 : c ≠ 0x3e := by omega
+    have h2 : c ≠ 0x5c := by omega
+    have h3 : iriForbidden c = false := by
+      simp only [iriForbidden, Bool.or_eq_false_iff, decide_eq_false_iff_not]; omega
+    rw [List.cons_append]
+    unfold scanIRIREF
+    rw [if_neg h1, if_neg h2]
+    simp only [h3, Bool.false_eq_true, ↓reduceIte]
+    rw [scanIRIREF_raw e s rest (c :: acc) (fun x hx => h x (List.mem_cons_of_mem _ hx))]
+    simp
+
+/-- an IRI written verbatim between `<` and `>` (directives) is read back as it is -/
+theorem iriref_raw (hC : CfgOK C T) (v rest : List Nat) (hv : iriOK v = true) :
+    C.P.iriref e (0x3c :: (v ++ 0x3e :: rest)) = .ok v rest := by
+  rw [hC.prod]
+  simp only [Producers.real, produceIRIREF, ↓reduceIte]
+  rw [scanIRIREF_raw e v rest [] (rawOK_of_iriOK hv)]
+  simp [goString_id_of_scalar (scalars_of_iriOK hv)]
+
+theorem pnameNS_tok (hC : CfgOK C T) (p rest : List Nat) (hp : prefixOK T p = true) (hps : Scalars p) :
+    C.P.pnameNS e (p ++ 0x3a :: rest) = .ok p rest := by
+  rw [hC.prod]
+  exact Proofs.C02Tok.pnameNs_ok T e p rest hp hps
+
+/-- a label followed by ':' starts with a visible rune -/
+theorem label_colon_head (hT : DocTablesOK T) (hC : CfgOK C T) {p : List Nat} (hp : labelSafe C.isSpace T p = true)
+    (more : List Nat) : ∃ c0 r0, p ++ 0x3a :: more = c0 :: r0 ∧ Vis C c0 := by
+  obtain ⟨c0, r0, h0, hv, _, _⟩ := pname_head hT hC hp more
+  exact ⟨c0, r0, h0, hv⟩
+
+/-- `@prefix p: <ns> .` -/
+theorem run_at_prefix (hT : DocTablesOK T) (hC : CfgOK C T) (x : Ectx) (K : List Frame) (k : Nat) (env : Env)
+    (p ns rest : List Nat) (hp : labelSafe C.isSpace T p = true) (hns : iriOK ns = true)
+    (hres : C.resolve env.base ns = some ns) :
+    Run C e (mk (⟨x, .statement⟩ :: K)
+        (List.replicate k 0x0a ++ (prefixDirective .at ⟨p, ns⟩ ++ rest)) env) []
+      (mk (⟨x, .statement⟩ :: ⟨x, .statement⟩ :: K) (0x0a :: rest) (env.addPrefix p ns)) := by
+  obtain ⟨hpo, hps, _, _, _⟩ := labelSafe_parts hp
+  have htext : prefixDirective .at ⟨p, ns⟩ ++ rest =
+      0x40 :: 0x70 :: 0x72 :: 0x65 :: 0x66 :: 0x69 :: 0x78 :: 0x20 :: (p ++ 0x3a :: 0x20 :: 0x3c :: (ns ++ 0x3e :: 0x20 :: 0x2e :: 0x0a :: rest)) := by
+    have a1 : asc "@prefix " = [0x40, 0x70, 0x72, 0x65, 0x66, 0x69, 0x78, 0x20] := by decide
+    have a2 : asc ": <" = [0x3a, 0x20, 0x3c] := by decide
+    have a3 : asc "> .\n" = [0x3e, 0x20, 0x2e, 0x0a] := by decide
+    simp [prefixDirective, a1, a2, a3]
+  rw [htext]
+  have hat : Vis C 0x40 := vis_ascii hC (by decide) (by decide) (by decide)
+  have hlt : Vis C 0x3c := vis_ascii hC (by decide) (by decide) (by decide)
+  have hdot : Vis C 0x2e := vis_ascii hC (by decide) (by decide) (by decide)
+  obtain ⟨c0, r0, h0, hv0⟩ := label_colon_head hT hC hp (0x20 :: 0x3c :: (ns ++ 0x3e :: 0x20 :: 0x2e :: 0x0a :: rest))
+  have s1 : scanFn C e ⟨x, .statement⟩ (List.replicate k 0x0a ++
+      0x40 :: 0x70 :: 0x72 :: 0x65 :: 0x66 :: 0x69 :: 0x78 :: 0x20 :: (p ++ 0x3a :: 0x20 :: 0x3c :: (ns ++ 0x3e :: 0x20 :: 0x2e :: 0x0a :: rest))) env =
+      .ok { cur := some ⟨x, .atPrefixNS⟩, push := [⟨x, .statement⟩],
+            inp := 0x20 :: (p ++ 0x3a :: 0x20 :: 0x3c :: (ns ++ 0x3e :: 0x20 :: 0x2e :: 0x0a :: rest)), env := env } := by
+    rw [scanFn_nls, scanFn_vis hat]
+    simp [stepFn, withSelf, stepStatementRune, stepAtDirective, matchKw, kwExact, asc]
+  have s2 : scanFn C e ⟨x, .atPrefixNS⟩ (0x20 :: (p ++ 0x3a :: 0x20 :: 0x3c :: (ns ++ 0x3e :: 0x20 :: 0x2e :: 0x0a :: rest))) env =
+      .ok { cur := some ⟨x, .atPrefixIRI p⟩, inp := 0x20 :: 0x3c :: (ns ++ 0x3e :: 0x20 :: 0x2e :: 0x0a :: rest), env := env } := by
+    rw [scanFn_sp, h0, scanFn_vis hv0]
+    simp only [stepFn]
+    rw [← h0, pnameNS_tok hC p _ hpo hps]
+    simp
+  have s3 : scanFn C e ⟨x, .atPrefixIRI p⟩ (0x20 :: 0x3c :: (ns ++ 0x3e :: 0x20 :: 0x2e :: 0x0a :: rest)) env =
+      .ok { cur := some ⟨x, .atPrefixDot p ns⟩, inp := 0x20 :: 0x2e :: 0x0a :: rest, env := env } := by
+    rw [scanFn_sp, scanFn_vis hlt]
+    simp [stepFn, iriref_raw hC ns _ hns, resolveURL, hres]
+  have s4 : scanFn C e ⟨x, .atPrefixDot p ns⟩ (0x20 :: 0x2e :: 0x0a :: rest) env =
+      .ok { cur := some ⟨x, .statement⟩, inp := 0x0a :: rest, env := env.addPrefix p ns } := by
+    rw [scanFn_sp, scanFn_vis hdot]
+    simp [stepFn]
+  exact (((run_of_scanFn (stk := K) s1).trans (run_of_scanFn (stk := ⟨x, .statement⟩ :: K) s2)).trans
+    (run_of_scanFn (stk := ⟨x, .statement⟩ :: K) s3)).trans (run_of_scanFn (stk := ⟨x, .statement⟩ :: K) s4)
+
+
+/-- `PREFIX p: <ns>` -/
+theorem run_sparql_prefix (hT : DocTablesOK T) (hC : CfgOK C T) (x : Ectx) (K : List Frame) (k : Nat) (env : Env)
+    (p ns rest : List Nat) (hp : labelSafe C.isSpace T p = true) (hns : iriOK ns = true)
+    (hres : C.resolve env.base ns = some ns) :
+    Run C e (mk (⟨x, .statement⟩ :: K)
+        (List.replicate k 0x0a ++ (prefixDirective .sparql ⟨p, ns⟩ ++ rest)) env) []
+      (mk (⟨x, .statement⟩ :: ⟨x, .statement⟩ :: K) (0x0a :: rest) (env.addPrefix p ns)) := by
+  obtain ⟨hpo, hps, _, _, _⟩ := labelSafe_parts hp
+  have htext : prefixDirective .sparql ⟨p, ns⟩ ++ rest =
+      0x50 :: 0x52 :: 0x45 :: 0x46 :: 0x49 :: 0x58 :: 0x20 :: (p ++ 0x3a :: 0x20 :: 0x3c :: (ns ++ 0x3e :: 0x0a :: rest)) := by
+    have a1 : asc "PREFIX " = [0x50, 0x52, 0x45, 0x46, 0x49, 0x58, 0x20] := by decide
+    have a2 : asc ": <" = [0x3a, 0x20, 0x3c] := by decide
+    have a3 : asc ">\n" = [0x3e, 0x0a] := by decide
+    simp [prefixDirective, a1, a2, a3]
+  rw [htext]
+  have hP : Vis C 0x50 := vis_ascii hC (by decide) (by decide) (by decide)
+  have hlt : Vis C 0x3c := vis_ascii hC (by decide) (by decide) (by decide)
+  obtain ⟨c0, r0, h0, hv0⟩ := label_colon_head hT hC hp (0x20 :: 0x3c :: (ns ++ 0x3e :: 0x0a :: rest))
+  have s1 : scanFn C e ⟨x, .statement⟩ (List.replicate k 0x0a ++
+      0x50 :: 0x52 :: 0x45 :: 0x46 :: 0x49 :: 0x58 :: 0x20 :: (p ++ 0x3a :: 0x20 :: 0x3c :: (ns ++ 0x3e :: 0x0a :: rest))) env =
+      .ok { cur := some ⟨x, .sparqlPrefixNS⟩, push := [⟨x, .statement⟩],
+            inp := p ++ 0x3a :: 0x20 :: 0x3c :: (ns ++ 0x3e :: 0x0a :: rest), env := env } := by
+    rw [scanFn_nls, scanFn_vis hP]
+    simp [stepFn, withSelf, stepStatementRune, stepKwSpace, matchKw, kwCI, asc, hC.sp]
+  have s2 : scanFn C e ⟨x, .sparqlPrefixNS⟩ (p ++ 0x3a :: 0x20 :: 0x3c :: (ns ++ 0x3e :: 0x0a :: rest)) env =
+      .ok { cur := some ⟨x, .sparqlPrefixIRI p⟩, inp := 0x20 :: 0x3c :: (ns ++ 0x3e :: 0x0a :: rest), env := env } := by
+    rw [h0, scanFn_vis hv0]
+    simp only [stepFn]
+    rw [← h0, pnameNS_tok hC p _ hpo hps]
+    simp
+  have s3 : scanFn C e ⟨x, .sparqlPrefixIRI p⟩ (0x20 :: 0x3c :: (ns ++ 0x3e :: 0x0a :: rest)) env =
+      .ok { cur := some ⟨x, .statement⟩, inp := 0x0a :: rest, env := env.addPrefix p ns } := by
+    rw [scanFn_sp, scanFn_vis hlt]
+    simp [stepFn, iriref_raw hC ns _ hns, resolveURL, hres]
+  exact ((run_of_scanFn (stk := K) s1).trans (run_of_scanFn (stk := ⟨x, .statement⟩ :: K) s2)).trans
+    (run_of_scanFn (stk := ⟨x, .statement⟩ :: K) s3)
+
+/-- `@base <b> .` -/
+theorem run_at_base (hC : CfgOK C T) (x : Ectx) (K : List Frame) (k : Nat) (env : Env)
+    (b rest : List Nat) (hb : iriOK b = true) (hne : b ≠ []) (hres : C.resolve env.base b = some b) :
+    Run C e (mk (⟨x, .statement⟩ :: K) (List.replicate k 0x0a ++ (baseDirective .at b ++ rest)) env) []
+      (mk (⟨x, .statement⟩ :: ⟨x, .statement⟩ :: K) (0x0a :: rest) { env with base := some b }) := by
+  have htext : baseDirective .at b ++ rest =
+      0x40 :: 0x62 :: 0x61 :: 0x73 :: 0x65 :: 0x20 :: 0x3c :: (b ++ 0x3e :: 0x20 :: 0x2e :: 0x0a :: rest) := by
+    have a1 : asc "@base <" = [0x40, 0x62, 0x61, 0x73, 0x65, 0x20, 0x3c] := by decide
+    have a3 : asc "> .\n" = [0x3e, 0x20, 0x2e, 0x0a] := by decide
+    have : b.isEmpty = false := by cases b <;> simp_all
+    simp [baseDirective, a1, a3, this]
+  rw [htext]
+  have hat : Vis C 0x40 := vis_ascii hC (by decide) (by decide) (by decide)
+  have hlt : Vis C 0x3c := vis_ascii hC (by decide) (by decide) (by decide)
+  have hdot : Vis C 0x2e := vis_ascii hC (by decide) (by decide) (by decide)
+  have s1 : scanFn C e ⟨x, .statement⟩ (List.replicate k 0x0a ++
+      0x40 :: 0x62 :: 0x61 :: 0x73 :: 0x65 :: 0x20 :: 0x3c :: (b ++ 0x3e :: 0x20 :: 0x2e :: 0x0a :: rest)) env =
+      .ok { cur := some ⟨x, .atBaseIRI⟩, push := [⟨x, .statement⟩],
+            inp := 0x20 :: 0x3c :: (b ++ 0x3e :: 0x20 :: 0x2e :: 0x0a :: rest), env := env } := by
+    rw [scanFn_nls, scanFn_vis hat]
+    simp [stepFn, withSelf, stepStatementRune, stepAtDirective, matchKw, kwExact, asc]
+  have s2 : scanFn C e ⟨x, .atBaseIRI⟩ (0x20 :: 0x3c :: (b ++ 0x3e :: 0x20 :: 0x2e :: 0x0a :: rest)) env =
+      .ok { cur := some ⟨x, .atBaseDot b⟩, inp := 0x20 :: 0x2e :: 0x0a :: rest, env := env } := by
+    rw [scanFn_sp, scanFn_vis hlt]
+    simp [stepFn, iriref_raw hC b _ hb, resolveURL, hres]
+  have s3 : scanFn C e ⟨x, .atBaseDot b⟩ (0x20 :: 0x2e :: 0x0a :: rest) env =
+      .ok { cur := some ⟨x, .statement⟩, inp := 0x0a :: rest, env := { env with base := some b } } := by
+    rw [scanFn_sp, scanFn_vis hdot]
+    simp [stepFn]
+  exact ((run_of_scanFn (stk := K) s1).trans (run_of_scanFn (stk := ⟨x, .statement⟩ :: K) s2)).trans
+    (run_of_scanFn (stk := ⟨x, .statement⟩ :: K) s3)
+
+/-- `BASE <b>` -/
+theorem run_sparql_base (hC : CfgOK C T) (x : Ectx) (K : List Frame) (k : Nat) (env : Env)
+    (b rest : List Nat) (hb : iriOK b = true) (hne : b ≠ []) (hres : C.resolve env.base b = some b) :
+    Run C e (mk (⟨x, .statement⟩ :: K) (List.replicate k 0x0a ++ (baseDirective .sparql b ++ rest)) env) []
+      (mk (⟨x, .statement⟩ :: ⟨x, .statement⟩ :: K) (0x0a :: rest) { env with base := some b }) := by
+  have htext : baseDirective .sparql b ++ rest =
+      0x42 :: 0x41 :: 0x53 :: 0x45 :: 0x20 :: 0x3c :: (b ++ 0x3e :: 0x0a :: rest) := by
+    have a1 : asc "BASE <" = [0x42, 0x41, 0x53, 0x45, 0x20, 0x3c] := by decide
+    have a3 : asc ">\n" = [0x3e, 0x0a] := by decide
+    have : b.isEmpty = false := by cases b <;> simp_all
+    simp [baseDirective, a1, a3, this]
+  rw [htext]
+  have hB : Vis C 0x42 := vis_ascii hC (by decide) (by decide) (by decide)
+  have hlt : Vis C 0x3c := vis_ascii hC (by decide) (by decide) (by decide)
+  have s1 : scanFn C e ⟨x, .statement⟩ (List.replicate k 0x0a ++
+      0x42 :: 0x41 :: 0x53 :: 0x45 :: 0x20 :: 0x3c :: (b ++ 0x3e :: 0x0a :: rest)) env =
+      .ok { cur := some ⟨x, .sparqlBaseIRI⟩, push := [⟨x, .statement⟩],
+            inp := 0x3c :: (b ++ 0x3e :: 0x0a :: rest), env := env } := by
+    rw [scanFn_nls, scanFn_vis hB]
+    simp [stepFn, withSelf, stepStatementRune, stepKwBase, matchKw, kwCI, asc, hC.sp]
+  have s2 : scanFn C e ⟨x, .sparqlBaseIRI⟩ (0x3c :: (b ++ 0x3e :: 0x0a :: rest)) env =
+      .ok { cur := some ⟨x, .statement⟩, inp := 0x0a :: rest, env := { env with base := some b } } := by
+    rw [scanFn_vis hlt]
+    simp [stepFn, iriref_raw hC b _ hb, resolveURL, hres]
+  exact (run_of_scanFn (stk := K) s1).trans (run_of_scanFn (stk := ⟨x, .statement⟩ :: K) s2)
+
+
+/-! ### the header -/
+
+/-- the decoder's prefix table after the prefix directives of a header -/
+def addAll (ms : List Prefix.Mapping) (env : Env) : Env := ms.foldl (fun v m => v.addPrefix m.pfx m.expanded) env
+
+theorem addAll_base : ∀ (ms : List Prefix.Mapping) (env : Env), (addAll ms env).base = env.base
+  | [], _ => rfl
+  | m :: ms, env => by simp only [addAll, List.foldl_cons]; exact addAll_base ms (env.addPrefix m.pfx m.expanded)
+
+theorem lookup_addAll_not : ∀ (ms : List Prefix.Mapping) (env : Env) (p : List Nat), p ∉ ms.map (·.pfx) →
+    lookupPfx p (addAll ms env).prefixes = lookupPfx p env.prefixes
+  | [], _, _, _ => rfl
+  | m :: ms, env, p, h => by
+    simp only [List.map_cons, List.mem_cons, not_or] at h
+    simp only [addAll, List.foldl_cons]
+    have := lookup_addAll_not ms (env.addPrefix m.pfx m.expanded) p h.2
+    simp only [addAll] at this
+    rw [this]
+    simp only [Env.addPrefix, lookupPfx]
+    rw [if_neg (fun hh => h.1 hh.symm)]
+
+theorem lookup_addAll_mem : ∀ (ms : List Prefix.Mapping) (env : Env), (ms.map (·.pfx)).Nodup → ∀ m ∈ ms,
+    lookupPfx m.pfx (addAll ms env).prefixes = some m.expanded
+  | [], _, _, m, hm => by cases hm
+  | m' :: ms, env, hnd, m, hm => by
+    simp only [List.map_cons, List.nodup_cons] at hnd
+    simp only [addAll, List.foldl_cons]
+    rcases List.mem_cons.mp hm with rfl | hm'
+    · have := lookup_addAll_not ms (env.addPrefix m.pfx m.expanded) m.pfx hnd.1
+      simp only [addAll] at this
+      rw [this]
+      simp [Env.addPrefix, lookupPfx]
+    · have := lookup_addAll_mem ms (env.addPrefix m'.pfx m'.expanded) hnd.2 m hm'
+      simpa [addAll] using this
+
+theorem replicate_nl_cons (rest : List Nat) : 0x0a :: rest = List.replicate 1 0x0a ++ rest := rfl
+
+/-- the prefix directives of a header, in either style -/
+theorem run_prefix_list (hT : DocTablesOK T) (hC : CfgOK C T) (mode : DirMode) (hmode : mode ≠ .disabled) (x : Ectx)
+    (rest : List Nat) : ∀ (ms : List Prefix.Mapping) (K : List Frame) (k : Nat) (env : Env),
+      (∀ m ∈ ms, labelSafe C.isSpace T m.pfx = true ∧ iriOK m.expanded = true ∧
+        C.resolve env.base m.expanded = some m.expanded) →
+      ∃ K' k', Run C e (mk (⟨x, .statement⟩ :: K)
+          (List.replicate k 0x0a ++ (ms.flatMap (prefixDirective mode) ++ rest)) env) []
+        (mk (⟨x, .statement⟩ :: K') (List.replicate k' 0x0a ++ rest) (addAll ms env))
+  | [], K, k, env, _ => ⟨K, k, by simpa [addAll] using Run.refl _⟩
+  | m :: ms, K, k, env, h => by
+    obtain ⟨h1, h2, h3⟩ := h m List.mem_cons_self
+    have hrest : ∀ m' ∈ ms, labelSafe C.isSpace T m'.pfx = true ∧ iriOK m'.expanded = true ∧
+        C.resolve (env.addPrefix m.pfx m.expanded).base m'.expanded = some m'.expanded :=
+      fun m' hm' => h m' (List.mem_cons_of_mem _ hm')
+    obtain ⟨K', k', ih⟩ := run_prefix_list hT hC mode hmode x rest ms (⟨x, .statement⟩ :: K) 1
+      (env.addPrefix m.pfx m.expanded) hrest
+    refine ⟨K', k', ?_⟩
+    have hshape : (m :: ms).flatMap (prefixDirective mode) ++ rest =
+        prefixDirective mode m ++ (ms.flatMap (prefixDirective mode) ++ rest) := by simp
+    rw [hshape]
+    have r1 : Run C e (mk (⟨x, .statement⟩ :: K)
+        (List.replicate k 0x0a ++ (prefixDirective mode m ++ (ms.flatMap (prefixDirective mode) ++ rest))) env) []
+        (mk (⟨x, .statement⟩ :: ⟨x, .statement⟩ :: K) (0x0a :: (ms.flatMap (prefixDirective mode) ++ rest))
+          (env.addPrefix m.pfx m.expanded)) := by
+      cases mode with
+      | disabled => exact absurd rfl hmode
+      | «at» => exact run_at_prefix hT hC x K k env m.pfx m.expanded _ h1 h2 h3
+      | sparql => exact run_sparql_prefix hT hC x K k env m.pfx m.expanded _ h1 h2 h3
+    rw [replicate_nl_cons] at r1
+    have := r1.trans ih
+    simpa [addAll] using this
+
+/-- the decoder's base after the base directive of a header -/
+def baseAfter (mode : DirMode) (b : List Nat) (env : Env) : Env :=
+  if b.isEmpty || mode = .disabled then env else { env with base := some b }
+
+theorem run_base_directive (hC : CfgOK C T) (mode : DirMode) (x : Ectx) (K : List Frame) (k : Nat) (env : Env)
+    (b rest : List Nat) (hb : iriOK b = true) (hres : C.resolve env.base b = some b) :
+    ∃ K' k', Run C e (mk (⟨x, .statement⟩ :: K) (List.replicate k 0x0a ++ (baseDirective mode b ++ rest)) env) []
+      (mk (⟨x, .statement⟩ :: K') (List.replicate k' 0x0a ++ rest) (baseAfter mode b env)) := by
+  by_cases hbe : b = []
+  · subst hbe
+    exact ⟨K, k, by simpa [baseDirective, baseAfter] using Run.refl _⟩
+  · have hne : b.isEmpty = false := by cases b <;> simp_all
+    cases mode with
+    | disabled => exact ⟨K, k, by simpa [baseDirective, baseAfter, hne] using Run.refl _⟩
+    | «at» =>
+      refine ⟨⟨x, .statement⟩ :: K, 1, ?_⟩
+      have := run_at_base (e := e) hC x K k env b rest hb hbe hres
+      simpa [baseAfter, hne] using this
+    | sparql =>
+      refine ⟨⟨x, .statement⟩ :: K, 1, ?_⟩
+      have := run_sparql_base (e := e) hC x K k env b rest hb hbe hres
+      simpa [baseAfter, hne] using this
+
+/-- a whole header (`WriteDirectives` and the empty line after it) -/
+theorem run_header (hT : DocTablesOK T) (hC : CfgOK C T) (x : Ectx) (K : List Frame) (env : Env)
+    (b : List Nat) (bm : DirMode) (ms : List Prefix.Mapping) (pmode : DirMode) (rest : List Nat)
+    (hb : iriOK b = true) (hres : C.resolve env.base b = some b)
+    (hms : pmode ≠ .disabled → ∀ m ∈ ms, labelSafe C.isSpace T m.pfx = true ∧ iriOK m.expanded = true ∧
+        C.resolve (baseAfter bm b env).base m.expanded = some m.expanded) :
+    ∃ K' k', Run C e (mk (⟨x, .statement⟩ :: K) (header b bm ms pmode ++ rest) env) []
+      (mk (⟨x, .statement⟩ :: K') (List.replicate k' 0x0a ++ rest)
+        (if pmode = .disabled then baseAfter bm b env else addAll ms (baseAfter bm b env))) := by
+  -- the text of the directives, followed by at most one more line feed
+  obtain ⟨j, hj⟩ : ∃ j, header b bm ms pmode ++ rest =
+      writeDirectives b bm ms pmode ++ (List.replicate j 0x0a ++ rest) := by
+    unfold header
+    simp only
+    split
+    · next hd =>
+      have : writeDirectives b bm ms pmode = [] := by simpa using hd
+      exact ⟨0, by simp [this]⟩
+    · exact ⟨1, by simp [nl]⟩
+  rw [hj]
+  unfold writeDirectives
+  obtain ⟨K1, k1, r1⟩ := run_base_directive (e := e) hC bm x K 0 env b
+    (ms.flatMap (prefixDirective pmode) ++ (List.replicate j 0x0a ++ rest)) hb hres
+  by_cases hp : pmode = .disabled
+  · subst hp
+    have hnil : ms.flatMap (prefixDirective .disabled) = [] := by
+      induction ms with
+      | nil => rfl
+      | cons m ms ih => simp [List.flatMap_cons, prefixDirective, ih]
+    refine ⟨K1, k1 + j, ?_⟩
+    simp only [hnil, List.nil_append, List.replicate_zero, List.append_assoc, ↓reduceIte] at r1 ⊢
+    rw [← List.replicate_append_replicate, List.append_assoc]
+    exact r1
+  · obtain ⟨K2, k2, r2⟩ := run_prefix_list (e := e) hT hC pmode hp x (List.replicate j 0x0a ++ rest) ms K1 k1
+      (baseAfter bm b env) (hms hp)
+    refine ⟨K2, k2 + j, ?_⟩
+    simp only [hp, ↓reduceIte]
+    have := r1.trans r2
+    simp only [List.replicate_zero, List.nil_append, List.append_assoc] at this ⊢
+    rw [← List.replicate_append_replicate, List.append_assoc]
+    exact this
 
 end RdfModel.Proofs.C02Doc
